@@ -160,6 +160,47 @@ def scopal_cyclic(succ):
     return any(i in naive_reach(succ, i) for i in succ)
 
 
+def descendant_list_sizes(mj):
+    """Cost guard only: the LENGTHS of the lists scope._descendants would build for the MRS
+    given as JSON (same recursion on integers).  On cyclic / self-scoping structures the real
+    lists double at every revisit (a 6-EP MRS reaches millions of entries)."""
+    rels = mj["rels"]
+    key = canon
+    labels = {}
+    for i, ep in enumerate(rels):
+        labels.setdefault(key(ep["label"]), []).append(i)
+    last = {}
+    for hi, _, lo in mj["hcons"]:
+        last[key(hi)] = key(lo)
+    targets = []
+    for ep in rels:
+        t = []
+        for r, v in ep["args"]:
+            if r == "ARG0":
+                continue
+            k = key(v)
+            if k in labels:
+                t.extend(labels[k])
+            elif k in last:
+                t.extend(labels.get(last[k], []))
+        targets.append(t)
+    size = {}
+
+    def visit(i, depth):
+        if i in size or depth > 400:
+            return
+        size[i] = 0
+        for j in targets[i]:
+            size[i] += 1
+            visit(j, depth + 1)
+            size[i] += size.get(j, 0)
+            if size[i] > 10 ** 7:
+                return
+    for i in range(len(rels)):
+        visit(i, 0)
+    return max(size.values(), default=0)
+
+
 # ------------------------------------------------------------------ the check
 
 class C07(Check):
@@ -177,14 +218,22 @@ class C07(Check):
             "scopes; (c) one-step mutations of (b); (d) wild MRSs of 0-6 EPs: shared labels/IVs, self-scoping and "
             "dangling arguments of any sort, cyclic/dangling/duplicate hcons, top absent/label/hole; a few with an "
             "EP lacking ARG0 (outside the property's quantifier; kept for the completeness test). Each with random "
-            "label equalities for conjoin. DMRS cases: 0-6 nodes with distinct ids, predicates from 3 names so that "
+            "label equalities for conjoin. (e) LARGE DENSE structures, the same list in every run plus 3% (thorough 1%) of "
+            "the random cases: cliques and near-cliques (30%/60% of the mutual arguments dropped, spanning ring kept) of "
+            "8/12/16/24 (thorough also 32/40) predications sharing one label or not, each with a private modifier "
+            "predication; 10/16/20/30 (45) labels equated as complete graph / chain with chords / star / ring / two "
+            "cliques, each label with a pendant label, for conjoin, and the same shapes as DMRSs of 20-60 (90) nodes with "
+            "EQ links and the top on a pendant node; linear scopal chains of depth 50/80 (120), also closed into a "
+            "cycle, for descendants/representatives; stars with fan-out 12/30/60. DMRS cases: 0-6 nodes with distinct ids, predicates from 3 names so that "
             "many nodes compare equal, arbitrary links (EQ chains/cycles/self loops, H, HEQ, MOD/EQ, dangling ends), "
             "top absent / a node / not a node. Non-trivial = at least one predication; distinct by JSON text.")
     assumptions = [
         "variable strings are (sort, canonical decimal id); sorts are ASCII",
         "EP ids pairwise distinct (true unless an ARG0 has the sort '_'): otherwise the driver answers 'unmodelled'",
         "Python set iteration order is not modelled: conjoin / DMRS.scopes are compared up to the chosen label and "
-        "up to the order inside a conjoined scope; the BFS start of is_connected is compared for every start",
+        "up to the order inside a conjoined scope; the BFS start of is_connected is compared for every start "
+        "(more than 12 predications: first, middle and last start only; the oracle additionally re-runs the real "
+        "is_connected on the reversed predication list)",
         "descendants/representatives of a DMRS are checked by the direct oracle only (not modelled)",
         "recursion depth of scope._descendants stays below CPython's limit (structures have < 20 predications)",
     ]
@@ -193,7 +242,26 @@ class C07(Check):
                     "harness/common/semgen.py converters (object <-> JSON)"]
 
     # ---- generators
+    heavy_limit = 20000
+    skipped_heavy = 0
+
     def cases(self, rng, tier, n):
+        """all generated cases, minus those whose descendant lists would exceed `heavy_limit`
+        entries (exponential blow-up of scope._descendants on densely self-scoping input; it
+        terminates, but one such case costs tens of seconds on both sides)"""
+        self.skipped_heavy = 0
+        for c in self.all_cases(rng, tier, n):
+            if c["kind"] == "mrs" and descendant_list_sizes(c["m"]) > self.heavy_limit:
+                self.skipped_heavy += 1
+                continue
+            yield c
+
+    def extra_evidence(self):
+        return {"skipped_heavy_descendant_cases": self.skipped_heavy,
+                "skipped_heavy_note": "generated MRSs whose scope.descendants lists would exceed %d entries "
+                                      "(doubling on cyclic/self-scoping arguments) are not run" % self.heavy_limit}
+
+    def all_cases(self, rng, tier, n):
         small = list(semgen.enum_small_mrs(2))
         step = 1 if tier == "thorough" else 37
         off = rng.randrange(step)
@@ -209,7 +277,10 @@ class C07(Check):
 
     # large, densely linked structures — the same list in every run (the rng only
     # decides orientation / order), then a random share inside random_cases
+    big_share = 0.03
+
     def big_cases(self, rng, tier):
+        self.big_share = 0.03 if tier == "quick" else 0.01
         def mrs(src, m, leqs=None):
             return {"kind": "mrs", "src": src, "m": m, "leqs": semgen.gen_leqs(rng, m) if leqs is None else leqs}
         sizes = [8, 12, 16, 24] + ([32, 40] if tier == "thorough" else [])
@@ -225,7 +296,7 @@ class C07(Check):
                 yield mrs("big-conjoin", m, semgen.gen_leqs_dense(k, kind, rng))
                 yield {"kind": "dmrs", "src": "big-dmrs", "d": semgen.gen_dmrs_dense(k, kind)}
                 yield {"kind": "dmrs", "src": "big-dmrs", "d": semgen.gen_dmrs_dense(k, kind, rng)}
-        for depth in [50, 80] + ([200] if tier == "thorough" else []):
+        for depth in [50, 80] + ([120] if tier == "thorough" else []):
             yield mrs("big-chain", semgen.gen_mrs_chain(depth))
             yield mrs("big-chain", semgen.gen_mrs_chain(depth, rng, close_cycle=True))
         for f in (12, 30, 60):
@@ -235,28 +306,28 @@ class C07(Check):
     def random_big(self, rng):
         r = rng.random()
         if r < 0.3:
-            m = semgen.gen_mrs_clique(rng.randrange(8, 21), rng, drop=rng.choice([0.0, 0.2, 0.5]),
+            m = semgen.gen_mrs_clique(rng.randrange(8, 17), rng, drop=rng.choice([0.0, 0.2, 0.5]),
                                       pendants=rng.random() < 0.8, shared_label=rng.random() < 0.7)
             if rng.random() < 0.3:
                 m = semgen.mutate_mrs(rng, m)
             return {"kind": "mrs", "src": "big-clique", "m": m, "leqs": semgen.gen_leqs(rng, m)}
         if r < 0.55:
-            k = rng.randrange(8, 25)
+            k = rng.randrange(8, 21)
             kind = rng.choice(["complete", "chords", "star", "ring", "two"])
             leqs = semgen.gen_leqs_dense(k, kind, rng)
             if rng.random() < 0.3:        # thin out: several components
                 leqs = [e for e in leqs if rng.random() < 0.8]
             return {"kind": "mrs", "src": "big-conjoin", "m": semgen.gen_mrs_labels(k), "leqs": leqs}
         if r < 0.8:
-            d = semgen.gen_dmrs_dense(rng.randrange(8, 25), rng.choice(["complete", "chords", "star", "ring", "two"]), rng)
+            d = semgen.gen_dmrs_dense(rng.randrange(8, 21), rng.choice(["complete", "chords", "star", "ring", "two"]), rng)
             if rng.random() < 0.3:
                 d["links"] = [l for l in d["links"] if rng.random() < 0.8]
             d["top"] = rng.choice([n["id"] for n in d["nodes"]])
             return {"kind": "dmrs", "src": "big-dmrs", "d": d}
         if r < 0.9:
-            m = semgen.gen_mrs_chain(rng.randrange(20, 70), rng, close_cycle=rng.random() < 0.3)
+            m = semgen.gen_mrs_chain(rng.randrange(20, 51), rng, close_cycle=rng.random() < 0.3)
             return {"kind": "mrs", "src": "big-chain", "m": m, "leqs": semgen.gen_leqs(rng, m)}
-        m = semgen.gen_mrs_star(rng.randrange(8, 40), rng, scopal=rng.random() < 0.5)
+        m = semgen.gen_mrs_star(rng.randrange(8, 31), rng, scopal=rng.random() < 0.5)
         return {"kind": "mrs", "src": "big-star", "m": m, "leqs": semgen.gen_leqs(rng, m)}
 
     def random_cases(self, rng, n, kinds=None):
@@ -264,7 +335,7 @@ class C07(Check):
             r = rng.random()
             if kinds:
                 r = rng.choice([{"tree": 0.1, "mut": 0.4, "wild": 0.6, "dmrs": 0.9}.get(k, 2.0) for k in kinds])
-            if r > 1.0 or (not kinds and rng.random() < 0.03):
+            if r > 1.0 or (not kinds and rng.random() < self.big_share):
                 yield self.random_big(rng)
                 continue
             if r < 0.3:
@@ -672,54 +743,64 @@ class C07(Check):
                     inc("dmrs:equal-nodes")
 
     def shrink(self, case, still_fails):
+        """delta debugging over the structured case: blocks of predications / constraints /
+        equalities / nodes / links first (halves, quarters, …), then single elements and single
+        arguments; at most 300 re-evaluations, so that big dense cases report quickly."""
         import copy
-        cur = case
-        changed = True
-        while changed:
-            changed = False
-            cands = []
-            if cur["kind"] == "mrs":
-                m = cur["m"]
-                for i in range(len(m["rels"])):
+        budget = [300]
+
+        def ok(c):
+            if budget[0] <= 0:
+                return False
+            budget[0] -= 1
+            try:
+                return bool(still_fails(c))
+            except Exception:
+                return False
+
+        def lists(c):
+            if c["kind"] == "mrs":
+                return [(c["m"], "rels"), (c["m"], "hcons"), (c, "leqs"), (c["m"], "vars")]
+            return [(c["d"], "links"), (c["d"], "nodes")]
+
+        cur = copy.deepcopy(case)
+        for li in range(len(lists(cur))):
+            n = len(lists(cur)[li][0].get(lists(cur)[li][1]) or [])
+            chunk = max(1, n // 2)
+            while chunk >= 1 and budget[0] > 0:
+                k = 0
+                progressed = False
+                while budget[0] > 0:
+                    holder, key = lists(cur)[li]
+                    xs = holder.get(key) or []
+                    if k >= len(xs):
+                        break
                     c = copy.deepcopy(cur)
-                    del c["m"]["rels"][i]
-                    cands.append(c)
-                for i in range(len(m["hcons"])):
-                    c = copy.deepcopy(cur)
-                    del c["m"]["hcons"][i]
-                    cands.append(c)
-                for i, ep in enumerate(m["rels"]):
+                    h2, _ = lists(c)[li]
+                    h2[key] = xs[:k] + xs[k + chunk:]
+                    if ok(c):
+                        cur = c
+                        progressed = True
+                    else:
+                        k += chunk
+                if chunk == 1 and not progressed:
+                    break
+                chunk = chunk // 2 if chunk > 1 else (1 if progressed else 0)
+        if cur["kind"] == "mrs":
+            changed = True
+            while changed and budget[0] > 0:
+                changed = False
+                for i, ep in enumerate(cur["m"]["rels"]):
                     for k in range(len(ep["args"])):
                         if ep["args"][k][0] != "ARG0":
                             c = copy.deepcopy(cur)
                             del c["m"]["rels"][i]["args"][k]
-                            cands.append(c)
-                if cur.get("leqs"):
-                    c = copy.deepcopy(cur)
-                    c["leqs"] = []
-                    cands.append(c)
-                if m.get("vars"):
-                    c = copy.deepcopy(cur)
-                    c["m"]["vars"] = []
-                    cands.append(c)
-            else:
-                d = cur["d"]
-                for i in range(len(d["links"])):
-                    c = copy.deepcopy(cur)
-                    del c["d"]["links"][i]
-                    cands.append(c)
-                for i in range(len(d["nodes"])):
-                    c = copy.deepcopy(cur)
-                    del c["d"]["nodes"][i]
-                    cands.append(c)
-            for c in cands:
-                try:
-                    if still_fails(c):
-                        cur = c
-                        changed = True
+                            if ok(c):
+                                cur = c
+                                changed = True
+                                break
+                    if changed:
                         break
-                except Exception:
-                    continue
         return cur
 
 
